@@ -226,6 +226,9 @@ impl Session {
                 }
                 buf
             };
+            if let Some(p) = std::env::var_os("FV_DUMP_REQS") {
+                let _ = std::fs::write(p, &reqs);
+            }
             let writer = std::thread::spawn(move || {
                 let _ = stdin.write_all(&reqs);
             });
